@@ -10,7 +10,7 @@ pub fn def() -> PropDef {
         builds: BOTH,
         rule: "every paragraph of 1..=k words from the C15 vocabulary x o1 (widths 0..=12 x 9 indent pairs x algorithms x LF/CRLF x trailing ending yes/no; space-only breaking) restricted to filled forms with >= 2 lines x o2 (widths {0,3,5,8,20, widest line of the filled input and its neighbours} x LF/CRLF x algorithms, space-only breaking, plus default Options at each width); refill(fill(t,o1)[+e1], o2) == fill(t, o2 with o1's indents)[+e2]; non-trivial = every evaluated case (a filled form with >= 2 lines)",
         assumptions: BASE_ASSUMPTIONS,
-        floor: |t| t.pick(100_000, 1_000_000),
+        floor: |t| t.pick(100_000, 300_000),
         run,
     }
 }
